@@ -4,7 +4,7 @@
    tokenise output), every configuration, both values of imp. *)
 From Coq Require Import ZArith List Bool Lia.
 From Model Require Import Tok.
-From Proofs Require Import C19_proofs.
+From Proofs Require Import C02_proofs C19_proofs C19_tokenise.
 Open Scope Z_scope.
 
 (* clause "exactly one entry per token": all four lists have the length of the stream *)
@@ -82,11 +82,88 @@ Theorem C19_tbar : forall c imp ts k t,
 Proof. exact C19_proofs.C19_tbar. Qed.
 Print Assumptions C19_tbar.
 
-(* clause "annotated times never decrease": proved for every stream satisfying the boolean side condition clock_ok
-   (every TRest value >= 0 and every TBar finds a remaining capacity >= 0).  PARTIAL: that tokenise output
-   satisfies clock_ok is not proved here. *)
-Theorem C19_monotone_partial : forall c imp ts j k,
+(* for streams over the vocabulary of a valid configuration detokenise accepts every prefix, so the onset state of
+   C19_note_time always exists and its clock is the get_info clock *)
+Theorem C19_vocab_prefix : forall c ts k,
+  valid_cfg c = true -> Forall (fun t => In t (vocab c)) ts ->
+  exists sd, foldM (detok_step c) (firstn k ts) (dstate0 c) = Ok sd /\
+             (d_time sd, d_tbar sd, d_total sd, d_rem sd) =
+             (i_time (info_run c (firstn k ts) (istate0 c)), i_tbar (info_run c (firstn k ts) (istate0 c)),
+              i_total (info_run c (firstn k ts) (istate0 c)), i_rem (info_run c (firstn k ts) (istate0 c))).
+Proof. exact C19_tokenise.C19_vocab_prefix. Qed.
+Print Assumptions C19_vocab_prefix.
+
+(* the note clause for ANY stream of vocabulary tokens (tokenise output or not), with and without imputation: the
+   detokeniser places NOTE_ON(p) at the annotated time of the token *)
+Theorem C19_note_time_vocab : forall c imp ts k trk p v w,
+  valid_cfg c = true -> Forall (fun t => In t (vocab c)) ts ->
+  nth_error ts k = Some (TNote trk p v w) ->
+  exists sd sd' i vel val,
+    foldM (detok_step c) (firstn k ts) (dstate0 c) = Ok sd /\
+    foldM (detok_step c) (firstn (S k) ts) (dstate0 c) = Ok sd' /\
+    nth k (f_time (get_info c imp ts)) 0 = d_time sd /\
+    nth k (f_pitch (get_info c imp ts)) None = Some (p, get_position p) /\
+    d_seqs sd' = set_nth i (fun a => insort (mk_off 0 p (d_time sd + val) false) (insort (mk_on 0 p vel (d_time sd) false) a))
+                         (d_seqs sd) /\
+    In (mk_on 0 p vel (d_time sd) false) (nth i (d_seqs sd') []).
+Proof. exact C19_tokenise.C19_note_time_vocab. Qed.
+Print Assumptions C19_note_time_vocab.
+
+(* clause "annotated times never decrease", general form: for every stream satisfying the boolean side condition
+   clock_ok (every TRest value >= 0 and every TBar finds a remaining capacity >= 0).  Without the side condition the
+   clause is false for arbitrary vocabulary streams (see C19_monotone_needs_clock_ok). *)
+Theorem C19_monotone_clock_ok : forall c imp ts j k,
   clock_ok c (istate0 c) ts = true -> (j <= k)%nat -> (k < length ts)%nat ->
   nth j (f_time (get_info c imp ts)) 0 <= nth k (f_time (get_info c imp ts)) 0.
 Proof. exact C19_proofs.C19_monotone_partial. Qed.
-Print Assumptions C19_monotone_partial.
+Print Assumptions C19_monotone_clock_ok.
+
+Theorem C19_monotone_needs_clock_ok : exists c ts,
+  valid_cfg c = true /\ Forall (fun t => In t (vocab c)) ts /\ clock_ok c (istate0 c) ts = false /\
+  nth 5 (f_time (get_info c false ts)) 0 = 120 /\ nth 6 (f_time (get_info c false ts)) 0 = 96.
+Proof. exact C19_tokenise.C19_monotone_needs_clock_ok. Qed.
+Print Assumptions C19_monotone_needs_clock_ok.
+
+(* clause "for streams produced by tokenise ... annotated times never decrease": one tokenise call from the fresh
+   tokeniser state, any accepted input *)
+Theorem C19_monotone : forall c imp tracks toks st' j k,
+  tokenise c (tstate0 c) tracks = Ok (toks, st') -> valid_cfg c = true -> DEFAULT_TS_NUM = DEFAULT_TS_DEN ->
+  (j <= k)%nat -> (k < length toks)%nat ->
+  nth j (f_time (get_info c imp toks)) 0 <= nth k (f_time (get_info c imp toks)) 0.
+Proof. exact C19_tokenise.C19_monotone. Qed.
+Print Assumptions C19_monotone.
+
+(* the same for the concatenated output of any number of successive tokenise calls that thread the persistent
+   tokeniser state (tokenise_many), starting from the fresh state *)
+Theorem C19_monotone_many : forall c imp pieces toks st' j k,
+  tokenise_many c (tstate0 c) pieces = Ok (toks, st') -> valid_cfg c = true -> DEFAULT_TS_NUM = DEFAULT_TS_DEN ->
+  (j <= k)%nat -> (k < length toks)%nat ->
+  nth j (f_time (get_info c imp toks)) 0 <= nth k (f_time (get_info c imp toks)) 0.
+Proof. exact C19_tokenise.C19_monotone_many. Qed.
+Print Assumptions C19_monotone_many.
+
+(* for tokenise output the clock of get_info is the tokeniser's own clock: after the whole stream the annotated
+   time / in-bar time / remaining capacity are those of the returned tokeniser state *)
+Theorem C19_tokenise_clock : forall c pieces toks st',
+  tokenise_many c (tstate0 c) pieces = Ok (toks, st') -> valid_cfg c = true -> DEFAULT_TS_NUM = DEFAULT_TS_DEN ->
+  clock_ok c (istate0 c) toks = true /\ bars_exact c (istate0 c) toks = true /\
+  i_time (info_run c toks (istate0 c)) = t_time st' /\
+  i_tbar (info_run c toks (istate0 c)) = t_tbar st' /\
+  i_rem (info_run c toks (istate0 c)) = t_rem st'.
+Proof. exact C19_tokenise.C19_tokenise_clock. Qed.
+Print Assumptions C19_tokenise_clock.
+
+(* bar_start (the ghost of C19_tbar) moves only at bar tokens ... *)
+Theorem C19_bar_start_other : forall c ts k t,
+  nth_error ts k = Some t -> t <> TBar -> bar_start c ts (S k) = bar_start c ts k.
+Proof. exact C19_proofs.bar_start_snoc_other. Qed.
+Print Assumptions C19_bar_start_other.
+
+(* ... and for tokenise output (every bar token closes an exactly filled bar) it moves to the annotated time of that
+   bar token: with C19_tbar this is the clause "each note's in-bar time equals its onset minus the start of its bar" *)
+Theorem C19_bar_start_tokenise : forall c imp pieces toks st' k,
+  tokenise_many c (tstate0 c) pieces = Ok (toks, st') -> valid_cfg c = true -> DEFAULT_TS_NUM = DEFAULT_TS_DEN ->
+  nth_error toks k = Some TBar ->
+  bar_start c toks (S k) = nth k (f_time (get_info c imp toks)) 0.
+Proof. exact C19_tokenise.C19_bar_start_tokenise. Qed.
+Print Assumptions C19_bar_start_tokenise.
